@@ -358,6 +358,10 @@ async def _interp(run: Run, sdef: dict, ctx: Context, ev: Any, rn: int) -> Any:
             if wid == "per":  # one waiter id per invocation (concurrent invocations of a step do not share a waiter)
                 wid = f"w{(int(uid) % 80) + 10:02d}"
             kw: dict[str, Any] = {}
+            if reqk == "own":
+                # auto-generated waiter id; the invocations differ only in the requirement VALUE (their input's k)
+                reqk = getattr(ev, "k", None)
+                wid = None
             if wid is not None:
                 kw["waiter_id"] = wid
             if reqk is not None:
@@ -368,10 +372,11 @@ async def _interp(run: Run, sdef: dict, ctx: Context, ev: Any, rn: int) -> Any:
                 got = await ctx.wait_for_event(ET.TYPES[ty], timeout=timeout, **kw)
                 run.__dict__.setdefault("_last_waited", {}).setdefault(uid, []).append(getattr(got, "k", None))
                 run.trace.steps.append(("waited", name, uid, rn, asyncio.get_event_loop().time(),
-                                        {"wid": wid, "got_uid": got.uid, "got_ty": ET.TY_ID[type(got)], "got_k": got.k,
+                                        {"wid": wid if (wid is not None or act[2] != "own") else f"auto{ty}:{reqk!r}", "got_uid": got.uid, "got_ty": ET.TY_ID[type(got)], "got_k": got.k,
                                          "want_ty": ty, "want_k": reqk}))
             except asyncio.TimeoutError:
-                run.trace.steps.append(("wait_timeout", name, uid, rn, asyncio.get_event_loop().time(), {"wid": wid}))
+                run.trace.steps.append(("wait_timeout", name, uid, rn, asyncio.get_event_loop().time(),
+                                        {"wid": wid if (wid is not None or act[2] != "own") else f"auto{ty}:{reqk!r}"}))
                 if len(act) > 6 and act[6] == "swallow":
                     continue
                 raise
